@@ -2,21 +2,22 @@ package main
 
 import (
 	"fmt"
-	"strings"
+	"os"
 
-	"verifharness/fw"
-	"verifharness/gen/samples"
+	"github.com/tsawler/tabula"
 )
 
 func main() {
-	s := samples.Make("docx", fw.RandFor(1, "C02", "base", "extra", 0, 0))
-	for _, m := range samples.Unzip(s.Data) {
-		fmt.Println(m.Name, len(m.Data))
-		if strings.Contains(m.Name, "styles") {
-			fmt.Println(string(m.Data)[:1500])
+	for pg := 1; pg <= 9; pg++ {
+		fr, _, err := tabula.Open(os.Args[1]).Pages(pg).Fragments()
+		if err != nil {
+			break
 		}
-		if m.Name == "word/document.xml" {
-			fmt.Println(string(m.Data)[:900])
+		t, _, _ := tabula.Open(os.Args[1]).Pages(pg).Text()
+		fmt.Println("---- page", pg)
+		for _, f := range fr {
+			fmt.Printf("%7.2f %7.2f w=%6.2f sz=%4.1f %s %q\n", f.X, f.Y, f.Width, f.FontSize, f.FontName, f.Text)
 		}
+		fmt.Println(t)
 	}
 }
